@@ -27,7 +27,7 @@ META = {
             "= RefStorage's in log order, rejected calls raise only at the issuer; (2) after every step every worker's whole public "
             "state == the model; (3) fresh workers replaying random prefixes in random batch splits == the model at that prefix; "
             "(4) workers restored from each snapshot + tail == the model; (5) each worker's replay cursor never decreases and "
-            "equals the number of records reflected. In half of the file logs one worker is an unpickled copy of another; two Redis prefixes on one server must not see each other's snapshot. Held on the logs generated.",
+            "equals the number of records reflected. In half of the file logs one worker is an unpickled copy of another; two Redis prefixes on one server must not see each other's snapshot. Half of the Redis-cluster gap scenarios keep the gap open for >100 s on the readers' (virtual) clock. Held on the logs generated.",
     "note": "Trusted: RefStorage; the harness backend wrappers (HookedBackend / PrefixBackend) only delegate to the real backend "
             "objects. Every storage call appends exactly one record, which is how model states are indexed by log length.",
     "technique": "runtime monitoring: convergence monitor over multi-worker journal histories against a reference model in log order",
